@@ -67,6 +67,10 @@ PREREQUISITES = {
         ("C12", "'power-off discards everything still queued' - of the transceivers the command addresses, not of others: every "
                 "transceiver owns its child list and queue", sel("C12.R2", "C12.R8")),
         ("C02", "... and every list of transceivers is a list of its own", sel("C02.R5", "C02.R7")),
+        ("C14", "'no burst ever vanishes': an exception that leaves the clock thread drops the bursts due in that tick and ends "
+                "the clock for every transceiver", sel("C14.R11")),
+        ("C10", "... in particular the per-recipient processing of a due burst of any length must complete",
+         sel("C10.R3", key=("forwarded on a version-1 link",))),
     ],
     "C04": [
         ("C01", "C04 decides gen_msg() / parse_msg() against the layout one call at a time; that every call works on the message's "
@@ -111,8 +115,9 @@ PREREQUISITES = {
          sel("C03.R1", "C03.R5")),
         ("C14", "'the shared clock generator runs iff ...': nothing on the clock thread's path may raise", sel("C14.R11")),
         ("C09", "starting / stopping the shared clock generator takes effect", sel("C09.R3", "C09.R4")),
-        ("C05", "every power command that is acknowledged was handed to the command handler (a reply replayed from a memory of "
-                "earlier datagrams acknowledges a command that was not executed)", sel("C05.R1", key=("in a row",))),
+        ("C05", "every power command that is acknowledged was handed to the command handler with its verb intact (a reply replayed "
+                "from a memory of earlier datagrams, or a verb cut short, acknowledges a command that was not executed)",
+         sel("C05.R1", "C05.R2", key=("in a row", "POWERON", "POWEROFF"))),
     ],
     "C14": [
         ("C05", "'malformed control commands are answered with an error status or ignored, and the transceiver goes on serving'",
